@@ -3,8 +3,8 @@ from . import common as C
 
 MANIFEST = dict(
    technique="Lean 4 proof over store models with caller-visible value graphs (cells for maps / slices / pointees, value-typed aggregate nodes for structs and arrays held by value; reach / ser / deep copy / rebuild / assign) + correspondence: a type-directed generator of Go value graphs drives (i) by-value inputs through Parse / ParseAny / StrictParse of generated schema trees with digests (contents + addresses, spare capacity included) of every cell of the input graph, (ii) typed default / prefault values through random Parse(nil) / deep-mutation histories over families of schemas sharing the value, (iii) pointers through Parse / StrictParse, (iv) a schema language in which every schema-owned cell is explicit (literals over any with slice / map members, defaults, objects / slices / records / unions embedding them) through Parse - mutate - Parse histories over fresh equal copies of generated inputs, the Lean model predicting verdict, look, aliasing and the state of the schemas",
-   text="For the code as it is (deepCloneValue clones maps, slices, pointees and, field by field, structs and arrays): g_copyOK (the deep copy of any graph with value-typed aggregates, to any depth, consists of fresh cells only, looks exactly like the original and writes nothing that existed), g_result_fresh (Parse(nil): everything reachable from the returned default / prefault is fresh), g_assign_frame and g_hist (any interleaving of Parse(nil) calls on a family of schemas and stores of arbitrary contents into cells outside the schema-owned region leaves every default graph, hence every later result, looking the same), g_parse_mutate_parse (Parse(nil), change every scalar of every reachable cell at any nesting and add entries, Parse(nil): same look; no side conditions), g_input_unchanged (Parse of a by-value input graph builds its result in fresh cells for EVERY rewriting of entries — strip, key canonicalisation, coercion — so every cell of the input holds what it held), For EVERY schema-owned cell, not only defaults (Model/Owned.lean: parseS over any / String / literal-over-any / Default / Object strip-loose-strict / Slice / Record / Union, transcribed from validateLiteral, resolveDefault, validateObject, validateSlice, validateRecord): own_parse_ext (Parse of any value with any schema writes nothing that existed), own_result_fresh (every cell of a result was allocated by the call or is a cell of the caller's own input - never a literal member, a default or anything else a schema holds), own_mutate_reach (deep in-place mutation changes no reference), own_hist (ANY history of Parse calls with any schema of a family on newly built equal copies of any input, interleaved with deep mutation of any earlier result: every cell that existed at the start - all the schemas hold and the caller's original inputs - holds bit-for-bit what it held and every result consists of cells allocated since; no hypothesis about where the caller writes), own_hist_schema_look (every literal member / default looks the same and is still owned). The relational half, in the property's own words (Proofs/C15Congr.lean): own_parse_congr (Parse with the same schema in two stores in which every cell the schema holds looks the same, of two inputs that look the same at every depth whatever cells they are made of: the same verdict, and answers that look the same - the cells the two calls allocate are forgotten by ser), copy_look (the deep copy a caller makes looks like the original at every depth), own_hist_same_answer (in ANY history of Parse calls and deep in-place mutations of earlier results, parsing a newly built copy of input i with schema j before and after any further such history gives the same verdict and answers that look the same: mutating a value returned by Parse never changes what a later Parse returns). Witness lit_member_shared (a literal that continues with its declared member hands out the schema's cell; one store through the result and an equal input is refused). The clone's depth limit (Model/Clone.lean): deepCloneValue as it is returns the original below maxCloneDepth - Gozod.Graph.copy at its fuel - witnesses legacy_clone_shares_below_fuel (a default deeper than the limit) and legacy_clone_cyclic_shares (a self-referential default: the unrolled copy ends in the schema's own cell), both re-derived on /repo by the class deep (open: deep-aliased:*); for the memoised clone of pending/C15-clone-deep-default (cloneIso: the isomorphic image of the reachable graph, total on cyclic values): cloneIso_ext, cloneIso_fresh (every cell reachable from the result, to ANY depth, on ANY graph, is new), cloneIso_parse_mutate. Plus the round-1 theorems over plain node graphs (copyOK, c15_result_fresh, c15_mut_frame, c15_hist, c15_input_unchanged, c15_same_pointer). Witnesses: bulk_agg_copy_shared (copying struct / array elements by assignment leaves the cells they refer to shared), today_nested_default_shared (one-level copy).",
-   note="The g_* / own_* theorems follow graphs to 16 nested levels (the classes val / hist / own build at most 13); they describe the clone for values within its depth limit - beyond it (and for self-referential values) the code as it is violates the property: class deep, open: deep-aliased:*, pending fix, and the cloneIso_* theorems (no depth bound) for the fixed clone. The model of by-value container parsing (`rebuild`) abstracts what each schema type does to entries into an arbitrary function rw; that the real containers only read the input is established per case by the digests, not by translation of the Go code. g_hist takes the caller's stores to be outside the schema-owned region (discharged for results by g_result_fresh; g_parse_mutate_parse has no such hypothesis). StrictParse returning the caller's pointer is checked by the correspondence. Struct fields that are unexported stay shared in a cloned default (limit of deepCloneValue, not reachable by a caller outside the package). Trusted: Lean kernel, axioms propext/Classical.choice/Quot.sound, the Go harness (reflective generator, digests, mutator, graph encoder).",
+   text="For the code as it is (deepCloneValue clones maps, slices, pointees and, field by field, structs and arrays): g_copyOK (the deep copy of any graph with value-typed aggregates, to any depth, consists of fresh cells only, looks exactly like the original and writes nothing that existed), g_result_fresh (Parse(nil): everything reachable from the returned default / prefault is fresh), g_assign_frame and g_hist (any interleaving of Parse(nil) calls on a family of schemas and stores of arbitrary contents into cells outside the schema-owned region leaves every default graph, hence every later result, looking the same), g_parse_mutate_parse (Parse(nil), change every scalar of every reachable cell at any nesting and add entries, Parse(nil): same look; no side conditions), g_input_unchanged (Parse of a by-value input graph builds its result in fresh cells for EVERY rewriting of entries — strip, key canonicalisation, coercion — so every cell of the input holds what it held), For EVERY schema-owned cell, not only defaults (Model/Owned.lean: parseS over any / String / literal-over-any / Default / Object strip-loose-strict / Slice / Record / Union, transcribed from validateLiteral, resolveDefault, validateObject, validateSlice, validateRecord): own_parse_ext (Parse of any value with any schema writes nothing that existed), own_result_fresh (every cell of a result was allocated by the call or is a cell of the caller's own input - never a literal member, a default or anything else a schema holds), own_mutate_reach (deep in-place mutation changes no reference), own_hist (ANY history of Parse calls with any schema of a family on newly built equal copies of any input, interleaved with deep mutation of any earlier result: every cell that existed at the start - all the schemas hold and the caller's original inputs - holds bit-for-bit what it held and every result consists of cells allocated since; no hypothesis about where the caller writes), own_hist_schema_look (every literal member / default looks the same and is still owned). The relational half, in the property's own words (Proofs/C15Congr.lean): own_parse_congr (Parse with the same schema in two stores in which every cell the schema holds looks the same, of two inputs that look the same at every depth whatever cells they are made of: the same verdict, and answers that look the same - the cells the two calls allocate are forgotten by ser), copy_look (the deep copy a caller makes looks like the original at every depth), own_hist_same_answer (in ANY history of Parse calls and deep in-place mutations of earlier results, parsing a newly built copy of input i with schema j before and after any further such history gives the same verdict and answers that look the same: mutating a value returned by Parse never changes what a later Parse returns). Parse through a caller's pointer (Graph.parsePtrS / sameV = validatePointer / sameValue after /repo e584c0e, Proofs/C15Ptr.lean): own_ptr_input_unchanged (any schema, accepted or refused: only allocates - the caller's variable, the pointee's graph and every schema cell hold what they held), own_ptr_same_pointer (the validated value is the pointee: the caller's own pointer comes back), own_ptr_own_pointer (the schema built a new value: a pointer allocated by the call, holding it), witness legacy_ptr_pointee_replaced (the code before e584c0e re-pointed the caller's variable). Witness lit_member_shared (a literal that continues with its declared member hands out the schema's cell; one store through the result and an equal input is refused). The clone's depth limit (Model/Clone.lean): deepCloneValue as it is returns the original below maxCloneDepth - Gozod.Graph.copy at its fuel - witnesses legacy_clone_shares_below_fuel (a default deeper than the limit) and legacy_clone_cyclic_shares (a self-referential default: the unrolled copy ends in the schema's own cell), both re-derived on /repo by the class deep (open: deep-aliased:*); for the memoised clone of pending/C15-clone-deep-default (cloneIso: the isomorphic image of the reachable graph, total on cyclic values): cloneIso_ext, cloneIso_fresh (every cell reachable from the result, to ANY depth, on ANY graph, is new), cloneIso_parse_mutate. Plus the round-1 theorems over plain node graphs (copyOK, c15_result_fresh, c15_mut_frame, c15_hist, c15_input_unchanged, c15_same_pointer). Witnesses: bulk_agg_copy_shared (copying struct / array elements by assignment leaves the cells they refer to shared), today_nested_default_shared (one-level copy).",
+   note="The g_* / own_* theorems follow graphs to 16 nested levels (the classes val / hist / own build at most 13); they describe the clone for values within its depth limit - beyond it (and for self-referential values) the code as it is violates the property: class deep, open: deep-aliased:*, pending fix, and the cloneIso_* theorems (no depth bound) for the fixed clone. The model of by-value container parsing (`rebuild`) abstracts what each schema type does to entries into an arbitrary function rw; that the real containers only read the input is established per case by the digests, not by translation of the Go code. g_hist takes the caller's stores to be outside the schema-owned region (discharged for results by g_result_fresh; g_parse_mutate_parse has no such hypothesis). The two pointer clauses are read so that they can hold together (notes/C15.md): the input graph is unchanged always; the same pointer is demanded whenever the answer looks like what the pointer referred to; when the answer differs from the pointee (stripped / canonicalised / defaulted) a pointer of its own is the only admissible answer. StrictParse returning the caller's pointer is checked by the correspondence. own_parse_congr / own_hist_same_answer ask that the inputs look the same at every depth and conclude that the answers look the same to depth 16. Struct fields that are unexported stay shared in a cloned default (limit of deepCloneValue, not reachable by a caller outside the package). Trusted: Lean kernel, axioms propext/Classical.choice/Quot.sound, the Go harness (reflective generator, digests, mutator, graph encoder).",
    design="DESIGN.md §3.4, §5 C15; notes/C15.md")
 
 MODULES = ["Gozod.Proofs.C15", "Gozod.Proofs.C15Agg", "Gozod.Proofs.C15Own", "Gozod.Proofs.C15Clone", "Gozod.Proofs.C15Congr", "Gozod.Proofs.C15Ptr"]
@@ -139,6 +139,7 @@ def run(res):
         "the result against storex.SchemaAddrs (every cell reachable from the schema). "
         "deep: 5 schema types x {Default, Prefault} x {chains of 20-48 nested any-typed containers, self-referential map / slice, rings of 2-5 cells, lassos, diamonds} x histories "
         "P M0@k P + random M<j>@<k> / P on the family with k around the clone's limit (31-34), at the end of the spine and beyond one turn of a cycle; iterative uncapped walkers. "
+        "val inputs hand members over through pointers below the top level (map values / fields / elements that are *[]T, *map, *struct; Struct[Box], Slice[*Rule]). "
         "ptr(ctor): every exported XxxPtr constructor of package types (listed from the source by go/ast, 108) x every accepted value of a 70-value pool through a fresh pointer, Parse and StrictParse. "
         "ptr / dflt / reparse: the round-1 classes over storex.Probes(). distinct = distinct op bodies (graph shapes × histories).")
     # the same-pointer clause quantifies over every pointer-typed constructor: the harness lists them from the source (go/ast)
